@@ -334,6 +334,7 @@ package commitlog
 //@   loop 1 invariant forall x *commitLog :: x.vActiveSegment == old(x.vActiveSegment) && x.segments == old(x.segments)
 
 // write / WriteMessageSet: the segment's last offset becomes that of the last entry written
+//@ ghost var logWritten bool
 //@ func (*segment).write serves C01, C16
 //@   returns (n, err)
 //@   requires s != nil && len(entries) >= 1 && (forall j int :: 0 <= j && j < len(entries) ==> entries[j] != nil)
@@ -343,7 +344,11 @@ package commitlog
 //@   ensures [failed-unchanged] err != nil ==> s.lastOffset == old(s.lastOffset)
 //@   ensures [log-kept] forall x *commitLog :: x.vActiveSegment == old(x.vActiveSegment)
 
-//@ func (*segment).WriteMessageSet serves C01, C16
+//@ func (*segment).WriteMessageSet serves C01, C16, C05
+//@   ghost at entry: ghost.logWritten := false
+//@   ghost after call write: ghost.logWritten := ret1 == nil
+//@   call writeEntries requires [log-bytes-before-index-entries] ghost.logWritten && arg1 == entries
+//@   call write requires [same-batch] arg1 == ms && arg2 == entries
 //@   requires s != nil && len(entries) >= 1 && (forall j int :: 0 <= j && j < len(entries) ==> entries[j] != nil)
 //@   ensures [last] result == nil ==> s.lastOffset == old(entries[len(entries)-1].Offset)
 //@   ensures [base-kept] forall x *segment :: x.BaseOffset == old(x.BaseOffset)
@@ -633,3 +638,11 @@ package commitlog
 //@   call ClearLatest requires [epochs-cut-at-the-offset] arg1 == offset
 //@   ensures [segments-below-kept] result == nil ==> (forall i int :: 0 <= i && i < old(len(l.segments)) && old(nextOf(l.segments[i])) <= offset ==> i < len(l.segments) && l.segments[i] == old(l.segments[i]))
 //@   ensures [active-is-last] result == nil && ghost.cut ==> len(l.segments) >= 1 && l.vActiveSegment == l.segments[len(l.segments)-1]
+
+// ---------------------------------------------------------------------------------------------
+// Crash consistency, the part contracts can express (property C05): the ORDER of durable effects.
+// An append writes the log bytes first and indexes them only after that write succeeded, so a crash in between
+// never leaves an index entry for bytes that are not there (recovery trusts the index for the last offset).
+// checkpoints (high watermark, leader epochs) are replaced atomically: the only file-writing callee is atomic_file.WriteFile
+//@ callees (*commitLog).checkpointHW serves C05: strconv, strings, path/filepath, github.com/natefinch/atomic
+//@ callees (*leaderEpochCache).flush serves C05: bytes, fmt, github.com/natefinch/atomic
